@@ -171,6 +171,38 @@ theorem listing_decodes_top (bytes : List Nat) (anns : List Ann) (subs : List Su
   obtain ⟨_, rest, hd⟩ := unitListing_decodes 0 bytes anns subs h a ha
   exact ⟨rest, by simpa using hd⟩
 
+/-- **unit separation**: in a chunk accepted by `wfChunk`, no execution of a unit — by fall-through,
+by any jump, or by unwinding to a handler — ever reaches a `NewFrame` other than the unit's own first
+instruction, nor any position inside a nested unit (a `Function` body, or the jumped-over body of an
+unused function literal, fix 30b24e7): those positions are not instructions of the unit's listing,
+and every reachable configuration sits on one. A regression of that fix (the body inlined without the
+`Jump`) is rejected, see `wf_rejects_witnesses`. -/
+theorem wf_unit_separation (bytes : List Nat) (consts : List CKind) (h : wfChunk bytes consts = true)
+    (base need : Nat) (l : List Ann) (hu : (base, need, l) ∈ chunkUnits bytes)
+    (c : Cfg) (hr : Reach l ⟨base, 0, 0, []⟩ c) :
+    ∃ a ∈ l, a.pc = c.pc ∧ (a.ins.op = .NewFrame → c.pc = base) := by
+  have hf := wfChunk_units bytes consts h _ hu
+  obtain ⟨⟨a, ha, _⟩, _⟩ := good_reach consts base need l hf c hr
+  have hm := findPc_some _ _ _ ha
+  exact ⟨a, hm.1, hm.2, fun hop => by rw [← hm.2]; exact hf.oneFrame a hm.1 hop⟩
+
+/-- the real chunk of `|| 42` / `print "hello"` after fix 30b24e7 — `Jump` over the unused literal's
+body — is accepted, and the body is a unit of its own with its own frame -/
+theorem wf_accepts_skipped_unit :
+    wfChunk [0, 5, 55, 7, 0, 0, 2, 7, 1, 42, 62, 1, 12, 2, 0, 11, 4, 1, 60, 1, 2, 3, 1, 0, 62, 1] [.str, .str] = true
+    ∧ (chunkUnits [0, 5, 55, 7, 0, 0, 2, 7, 1, 42, 62, 1, 12, 2, 0, 11, 4, 1, 60, 1, 2, 3, 1, 0, 62, 1]).map
+        (fun u => (u.1, u.2.2.map (·.pc))) = [(0, [0, 2, 12, 15, 18, 24]), (5, [5, 7, 10])] := by decide
+
+/-- … and rejected when the jump does not cover exactly one complete frame unit (too short, too
+long), when the enclosing unit jumps to the skipped `NewFrame`, when the skipped body uses a register
+beyond its own `NewFrame`, or when the skipped body itself falls off its end -/
+theorem wf_rejects_bad_skipped_units :
+    wfChunk [0, 5, 55, 5, 0, 0, 2, 7, 1, 42, 62, 1, 12, 2, 0, 11, 4, 1, 60, 1, 2, 3, 1, 0, 62, 1] [.str, .str] = false
+    ∧ wfChunk [0, 5, 55, 10, 0, 0, 2, 7, 1, 42, 62, 1, 12, 2, 0, 11, 4, 1, 60, 1, 2, 3, 1, 0, 62, 1] [.str, .str] = false
+    ∧ wfChunk [0, 5, 57, 1, 3, 0, 55, 7, 0, 0, 2, 7, 1, 42, 62, 1, 62, 1] [] = false
+    ∧ wfChunk [0, 5, 55, 7, 0, 0, 2, 7, 4, 42, 62, 1, 62, 1] [] = false
+    ∧ wfChunk [0, 5, 55, 5, 0, 0, 2, 7, 1, 42, 62, 1] [] = false := by decide
+
 /-- non-vacuity: the real chunk of `f = |a, b| a + (b or 42)` (a nested unit with a forward jump)
 is accepted, and has two units -/
 example : wfChunk [0, 2, 27, 1, 2, 0, 0, 0, 18, 0, 0, 5, 1, 4, 2, 58, 4, 3, 0, 7, 4, 42, 37, 3, 1, 4, 62, 3, 62, 1]
